@@ -252,9 +252,12 @@ def parse_int(s):
     sign, k, lit = m.group(1), m.group(2), m.group(3)
     if k is not None:
         t = ctx().tokens[int(k)]
-        if t['conv'] != 'd':
+        if t['conv'] == 'x' and isinstance(t['mag'], SI):
+            v = t['mag']
+        elif t['conv'] != 'd':
             raise ValueError('invalid literal for int() with base 10: %r' % _show(s))
-        v = t['mag']
+        else:
+            v = t['mag']
     else:
         v = int(lit)
     return -v if sign == '-' else v
